@@ -251,7 +251,7 @@ package proto
 //@   modifies b.Buf
 //@   ensures len(b.Buf) == 0
 
-//@ contract (r *Reader) Read(p) (n, err) props(C07,C08)
+//@ contract (r *Reader) Read(p) (n, err) props(C05,C07,C08)
 //@   requires r != nil
 //@   modifies r.pos, r.failed, contents(p)
 //@   ensures 0 <= n && n <= len(p) && r.pos == old(r.pos) + n && r.pos <= r.end
@@ -267,7 +267,7 @@ package proto
 //@   ensures err == nil ==> forall k in 0..len(buf) :: buf[k] == r.in[old(r.pos) + k]
 //@   ensures r.reliable && !old(r.failed) && old(r.pos) + len(buf) <= r.end ==> err == nil {succeeds-when-bytes-present}
 
-//@ contract (r *Reader) readFull(n) (err) props(C01,C06,C07,C08,C17)
+//@ contract (r *Reader) readFull(n) (err) props(C01,C05,C06,C07,C08,C17)
 //@   requires r != nil && 0 <= n
 //@   modifies r.pos, r.failed, r.b.Buf
 //@   ensures rdOK(r, err, n)
@@ -281,7 +281,7 @@ package proto
 //@   ensures err == nil ==> len(out) == n && forall k in 0..n :: out[k] == r.in[old(r.pos) + k]
 //@   ensures r.reliable && !old(r.failed) && old(r.pos) + n <= r.end ==> err == nil {succeeds-when-bytes-present}
 
-//@ contract (r *Reader) ReadByte() (v, err) props(C07,C08)
+//@ contract (r *Reader) ReadByte() (v, err) props(C05,C07,C08)
 //@   requires r != nil
 //@   modifies r.pos, r.failed, r.b.Buf
 //@   ensures rdOK(r, err, 1)
